@@ -170,6 +170,19 @@ var ctxs = []ctx{
 	{"returns", "func r2CTX() (Int, Int) { return CALL(1), CALL(2) }\nfunc r1CTX(k Int) Int { if k == 0 { return CALL(3) }; for i := 0; i < 2; i++ { if Int(i) == k-1 { return CALL(4) + Int(i) } }; return -1 }\nfunc rcCTX() interface{} { return CALL(5) }", `a, b := r2CTX(); verif.TrI("ab", a*10+b); verif.TrI("r0", r1CTX(0)); verif.TrI("r1", r1CTX(1)); verif.TrI("r2", r1CTX(2)); verif.TrI("r5", r1CTX(5)); verif.TrI("rc", rcCTX().(Int))`},
 	{"namedresult", "func nrCTX() (r Int, s string) { defer func() { r += CALL(5); s += \"d\" }(); r = CALL(1); s = \"b\"; return r + CALL(2), s + \"r\" }\nfunc nr2CTX() (r Int) { defer func() { if e := recover(); e != nil { r = CALL(9) } }(); r = CALL(1); panic(\"p\") }", `r, s := nrCTX(); verif.TrI("r"+s, r); verif.TrI("nr2", nr2CTX())`},
 	{"returnlocal", "func rl1CTX() Int { x := Int(42); defer func() { x = -1; CALL(1); x = -2 }(); return x }\nfunc rl2CTX(p Int) (Int, string) { s := \"a\"; defer func() { p += 100; s += \"d\"; CALL(2); p += 1000 }(); defer func() { CALL(3); p++ }(); return p, s }\nfunc rl3CTX() Int { defer func() { CALL(4) }(); return 7 }\nfunc rl4CTX() [2]Int { a := [2]Int{1, 2}; defer func() { a[0] = 9; CALL(5); a[1] = 8 }(); return a }\nfunc rl5CTX() *Int { x := Int(5); p := &x; defer func() { p = nil; CALL(6) }(); return p }\ntype rlSCTX struct{ v Int }\nfunc rl6CTX() rlSCTX { s := rlSCTX{1}; defer func() { s.v = 2; CALL(7); s.v = 3 }(); return s }\nfunc rl7CTX(k Int) Int { for i := Int(0); i < 3; i++ { if i == k { defer func() { i = 50; CALL(8) }(); return i } }; return -1 }\nfunc rl8CTX() (Int, Int) { x, y := Int(1), Int(2); defer func() { x, y = y, x; CALL(9) }(); return x, y }", `verif.TrI("rl1", rl1CTX()); p, s := rl2CTX(5); verif.TrI("rl2"+s, p); verif.TrI("rl3", rl3CTX()); a := rl4CTX(); verif.TrI("rl4", a[0]*10+a[1]); verif.TrI("rl5", *rl5CTX()); verif.TrI("rl6", rl6CTX().v); verif.TrI("rl7", rl7CTX(1)); x, y := rl8CTX(); verif.TrI("rl8", x*10+y)`},
+	// a non-blocking call with an effect written BEFORE a blocking one inside the same expression / statement
+	{"mixedbinop", "", `x := verif.TrI("a", 1) + CALL(2); verif.TrI("x", x); y := verif.TrI("a", 1) * CALL(2) - verif.TrI("c", 3); verif.TrI("y", y)`},
+	{"mixedcompare", "", `if verif.TrI("a", 1) < CALL(2) { verif.Tr("lt") }; b := verif.TrI("a", 3) == CALL(3); if b { verif.Tr("eq") }`},
+	{"mixedindexassign", "", `arr := []Int{0, 0}; arr[verif.TrI("i", 1)] = CALL(2); verif.TrI("arr", arr[1]); var fa [2]Int; fa[verif.TrI("i", 0)] = CALL(3); verif.TrI("fa", fa[0])`},
+	{"mixedmapassign", "", `m := map[Int]Int{}; m[verif.TrI("k", 1)] = CALL(2); verif.TrI("m", m[1])`},
+	{"mixedindexread", "", `arr := []Int{5, 6}; x := arr[verif.TrI("i", 1)] + CALL(2); verif.TrI("x", x); m := map[Int]Int{1: 7}; y := m[verif.TrI("k", 1)] + CALL(3); verif.TrI("y", y)`},
+	{"mixedmethodarg", "type MRCTX struct{}\nfunc mkMRCTX() MRCTX { verif.Tr(\"recv\"); return MRCTX{} }\nfunc (MRCTX) m(x Int) Int { return verif.TrI(\"m\", x) }", `verif.TrI("r", mkMRCTX().m(CALL(1)))`},
+	{"mixedfuncindex", "", `fs := []func(Int) Int{func(x Int) Int { return verif.TrI("f", x) }}; verif.TrI("r", fs[verif.TrI("i", 0)](CALL(1)))`},
+	{"mixedsliceliteral", "", `s := []Int{verif.TrI("e", 1), CALL(2), verif.TrI("e", 3)}; verif.TrI("s", s[0]*100+s[1]*10+s[2]); a := [2]Int{verif.TrI("e", 4), CALL(5)}; verif.TrI("a", a[0]*10+a[1])`},
+	{"mixedstructliteral", "type MSCTX struct{ a, b Int }", `st := MSCTX{verif.TrI("e", 1), CALL(2)}; verif.TrI("st", st.a*10+st.b); kv := MSCTX{b: verif.TrI("e", 3), a: CALL(4)}; verif.TrI("kv", kv.a*10+kv.b); mm := map[Int]Int{verif.TrI("k", 5): CALL(6)}; verif.TrI("mm", mm[5])`},
+	{"mixedargs", "func mgCTX(p, q, r Int) Int { return p*100 + q*10 + r }", `verif.TrI("g", mgCTX(verif.TrI("a", 1), CALL(2), verif.TrI("c", 3)))`},
+	{"mixedtuple", "func mtCTX() (Int, Int) { return verif.TrI(\"a\", 1), CALL(2) }", `a, b := verif.TrI("a", 1), CALL(2); verif.TrI("ab", a*10+b); c, d := mtCTX(); verif.TrI("cd", c*10+d)`},
+	{"mixedsendappend", "", `c := make(chan Int, 2); var sl []Int; sl = append(sl, verif.TrI("e", 1), CALL(2)); verif.TrI("sl", sl[0]*10+sl[1]); s2 := "a" + string(rune(64+verif.TrI("r", 1))) + string(rune(64+CALL(2))); verif.Tr(s2); c <- verif.TrI("v", 1) + CALL(2); verif.TrI("c", <-c)`},
 	{"defers", "", `func() { defer func() { verif.Tr("d1"); CALL(1); verif.Tr("d1e") }(); defer func() { verif.Tr("d2"); CALL(2); verif.Tr("d2e") }(); defer verif.TrI("arg", CALL(3)); verif.Tr("body"); CALL(4) }(); verif.Tr("after")`},
 	{"deferpanic", "", `func() { defer func() { verif.Tr("outer"); r := recover(); if r != nil { verif.Tr("rec:" + r.(string)) }; CALL(3) }(); func() { defer func() { verif.Tr("d1"); CALL(1); verif.Tr("d1e") }(); defer func() { CALL(2); verif.Tr("d2e") }(); verif.Tr("body"); panic("p") }(); verif.Tr("notreached") }(); verif.Tr("after")`},
 	{"deferrecover", "", `x := func() (r Int) { defer func() { CALL(1); e := recover(); CALL(2); if e != nil { r = 7 }; CALL(3) }(); CALL(4); var m map[Int]Int; m[1] = 1; return 1 }(); verif.TrI("x", x); y := func() (r Int) { defer func() { recover() }(); defer func() { CALL(5); panic("second") }(); panic("first") }(); verif.TrI("y", y)`},
